@@ -109,8 +109,8 @@ def handleSrc (_tag : String) (toks : List String) : String :=
   | none => "bad-request"
   | some r =>
     match Asm.assemble r.so [] r.src with
-    | (.diag k _, _) => "M asmdiag " ++ k.name
-    | (.panic _, _) => "M asmpanic"
+    | (.diag _ _, _) => "M asmdiag"
+    | (.panic _, _) => "M loadpanic"
     | (.ok img, tbl) =>
       let orig : Word := img.orig.getD 0x3000#16
       match Run.fromRaw (orig :: img.words) with
